@@ -140,6 +140,10 @@ type wsEnv struct {
 	// history on the connection: frames sent right before Raw (e.g. the client's own complete / stop
 	// for an id that is about to be reused); they are not answered
 	Pre []string
+	// Hold: the operation is a subscription that stays active: its first data frame ends the exchange
+	Hold bool
+	// Quiet: a silent message is expected and does not close a graphql-transport-ws connection
+	Quiet bool
 }
 
 func (e wsEnv) sexp() sexp.Node {
@@ -531,6 +535,10 @@ type wsResult struct {
 // after the frame delimits the answer ("nothing before the sentinel's complete" = ignored).
 // Subscriptions complete asynchronously: for those (async) the operation's own complete is awaited.
 func (c *wsClient) exchange(raw string, id string, sentinelID string, async bool) (res wsResult) {
+	return c.exchangeMode(raw, id, sentinelID, async, false, false)
+}
+
+func (c *wsClient) exchangeMode(raw string, id string, sentinelID string, async, hold, quiet bool) (res wsResult) {
 	if os.Getenv("C17_DEBUG") != "" {
 		t0 := time.Now()
 		defer func() {
@@ -550,7 +558,7 @@ func (c *wsClient) exchange(raw string, id string, sentinelID string, async bool
 	c.conn.WriteMessage(websocket.TextMessage, []byte(frameText("itp", startType(c.proto), sentinelID, &sp)))
 	sentinelDone := false
 	for {
-		if sentinelDone && (res.Completed || (len(res.Payloads) == 0 && !async)) {
+		if sentinelDone && (res.Completed || (len(res.Payloads) == 0 && !async) || (hold && len(res.Payloads) > 0)) {
 			break
 		}
 		m, code, err := c.read(10 * time.Second)
@@ -581,7 +589,7 @@ func (c *wsClient) exchange(raw string, id string, sentinelID string, async bool
 		return
 	}
 	res.Kind = "ignored"
-	if c.proto == "tws" && !c.noCloseWait {
+	if c.proto == "tws" && !c.noCloseWait && !quiet {
 		// graphql-transport-ws answers a bad message by closing the connection, but its read loop
 		// keeps serving what follows (the sentinel) until the close handshake is through: the close
 		// frame comes after the sentinel's answer.  Nothing else is pending, so wait for it briefly;
@@ -644,7 +652,7 @@ func (s *server) serveWS(e wsEnv, feat bool, async bool, caseNo int) (o apiObs) 
 		c.primedFor = caseNo
 		s.rec.take()
 		c.sendAll(e.Pre)
-		r = c.exchange(e.Raw, e.ID, e.ID+"-s", async)
+		r = c.exchangeMode(e.Raw, e.ID, e.ID+"-s", async || e.Hold, e.Hold, e.Quiet)
 	}
 	o.Resolvers, o.Hooks = s.rec.take()
 	o.Kind, o.Code, o.Completed = r.Kind, r.Code, r.Completed
@@ -743,7 +751,7 @@ func (d *decoderServer) decodeWS(e wsEnv, caseNo int) sexp.Node {
 		d.store.Delete(fmt.Sprintf("primer-%d", caseNo))
 		d.store.Delete(fmt.Sprintf("primer-%d-sub", caseNo))
 		c.sendAll(e.Pre)
-		r = c.exchange(e.Raw, e.ID, e.ID+"-s", false)
+		r = c.exchangeMode(e.Raw, e.ID, e.ID+"-s", false, false, e.Quiet)
 	}
 	switch r.Kind {
 	case "data":
